@@ -63,12 +63,19 @@ def tr_scenario(name, r):
             cfg['value_when_missing_callable'] = mv.get('value_when_missing.callable') == 'True'
             val = dec(v)
             cfg['value_when_missing'] = val if val != '<object>' else 'substitute-object'
-    elif unit == 'W_out':
+    if unit == 'W_out':
         cfg['data_handler'] = mv.get('data_handler', 'none') != 'none'
         cfg['fail_on_no_recorded_result'] = dec(mv.get('fail_on_no_recorded_result')) is not False
         d = dec(mv.get('default_result_when_not_recorded'))
         cfg['default_result_when_not_recorded'] = None if d == '<object>' else d
-    else:
+    if unit in ('W_in', 'W_out') and mode == 'recording':
+        p = {}
+        for key in ('copy_data_on_intercepion', 'ignore_enforced_sampling'):
+            if mv.get('params.' + key) is not None and dec(mv['params.' + key]) is True:
+                p[key] = True
+        if p:
+            cfg['params'] = p
+    if unit == 'W_op':
         cfg['metadata_extractor'] = mv.get('metadata_extractor', 'none') != 'none'
         p = {}
         for k_, key in (('sampling_rate', 'sampling_rate'), ('ignore_enforced_sampling', 'ignore_enforced_sampling'), ('skipped', 'skipped')):
@@ -142,18 +149,26 @@ def replay(prop, name, r):
     scn = tr_scenario(name, r)
     if scn is None:
         return None, 'no scenario builder for this obligation'
+    if 'no_key_beyond' in name:
+        scn['history_runs'] = 1          # the clause is about what an EARLIER run of the same decorated operation may leave behind
     o = native('native_tr.py', scn)
     rec = {'scenario': scn, 'observed': o}
     holds = None
+    C18_FLAGS = ('exception_false_and_complete', 'exception_true_and_complete', 'base/incomplete')
     if '/missing/' in name and scn['unit'] == 'W_in':
         holds = missing_policy(o, scn['config'])
-    elif prop == 'C04' or 'body_exactly_once' in name or 'result_is_body_result' in name or 'body_exception_or_callee_interrupt' in name:
+    elif 'body_exactly_once' in name or 'result_is_body_result' in name or 'body_exception_or_callee_interrupt' in name or 'must_return_or_raise' in name:
+        # the native oracle must be the clause that was refuted, never a different clause of the same property
         holds = transparent(o)
     elif 'finalised_exactly_once' in name:
         ev = o['cassette_events']; holds = ev.count('create') == 1 and ev.count('save') + ev.count('abort') == 1
     elif 'idle_after' in name:
         holds = bool(o['idle'])
-    elif name.startswith('C18/') and o.get('saved_meta') is not None:
+    elif 'no_key_beyond' in name and o.get('saved_meta') is not None:
+        # framework keys all carry the reserved prefix (U5: user metadata does not use it)
+        extra = [k for k in o['saved_meta'] if k not in o.get('extractor_keys', []) and not k.startswith('_tape_recorder_')]
+        holds = not extra; rec['keys_left_over_from_the_earlier_run'] = extra
+    elif name.startswith('C18/') and any(x in name for x in C18_FLAGS) and o.get('saved_meta') is not None:
         sm = o['saved_meta']; body = [c for c in scn['calls'] if c['name'] == 'func']
         inc = sm.get('_tape_recorder_incomplete_recording'); exc = sm.get('_tape_recorder_exception_in_operation')
         if body and body[0]['outcome'] == 'ret':
